@@ -353,10 +353,17 @@ class ProjectReport:  # pylint: disable=too-many-instance-attributes
                 out.write(f"LicenseID: {lic}\n")
                 out.write("LicenseName: NOASSERTION\n")
 
-                with (Path(self.path) / path).open(
-                    encoding="utf-8", errors="replace"
-                ) as fp:
-                    out.write(f"ExtractedText: <text>{fp.read()}</text>\n")
+                try:
+                    with (Path(self.path) / path).open(
+                        encoding="utf-8", errors="replace"
+                    ) as fp:
+                        out.write(f"ExtractedText: <text>{fp.read()}</text>\n")
+                except OSError as error:
+                    _LOGGER.error(
+                        _("Could not read '{path}'").format(path=path),
+                        exc_info=error,
+                    )
+                    out.write("ExtractedText: NOASSERTION\n")
 
         return out.getvalue()
 
